@@ -13,6 +13,41 @@ def loop_program(n, live):
             "let total = 0;\nfor i in %d.times() {\n  let t = [i, \"g${i}\", {\"a\": i}];\n  total = total + t.len();\n}\nprint(total);\nprint(keep.len());\n" % (live, n))
 
 
+def judge_stats(r):
+    """accounting rules on one run record (stats after a forced full collection)"""
+    st = r["stats_after_full"]
+    problems = []
+    if st["bytes_allocated"] != st["heap_bytes"] + st["obj_heap_bytes"] + st["nursery_bytes"]:
+        problems.append("bytes_allocated=%d but owned objects total %d" % (st["bytes_allocated"], st["heap_bytes"] + st["obj_heap_bytes"] + st["nursery_bytes"]))
+    if st["nursery_len"] != 0:
+        problems.append("nursery not empty after a full collection")
+    if st["next_gc"] != 2 * st["bytes_allocated"]:
+        problems.append("next_gc=%d is not twice bytes_allocated=%d" % (st["next_gc"], st["bytes_allocated"]))
+    bs = r.get("block_sizes")
+    if bs:
+        # independent of the allocator's own size(): what the global allocator handed out for each owned block
+        if bs["wrong"] or bs["unknown"]:
+            problems.append("%d of %d owned blocks are accounted with a size other than the one they were obtained with (first: %s); %d unknown to the global allocator"
+                            % (bs["wrong"], bs["blocks"], bs["first"], bs["unknown"]))
+        if bs["real_total"] != st["bytes_allocated"]:
+            problems.append("bytes_allocated=%d but the owned blocks were obtained with %d bytes in total" % (st["bytes_allocated"], bs["real_total"]))
+    en = r.get("stats_end")
+    if en and en["gc_count"] > 0 and en["bytes_allocated"] < en["heap_bytes"] + en["obj_heap_bytes"]:
+        problems.append("bytes_allocated below the owned total at the end of the run")
+    return problems
+
+
+def grown_program(rng):
+    """lists that outgrow their block several times while the old blocks are still referenced from
+    module variables, fields, map values, captured variables and other lists"""
+    n = rng.choice([5, 9, 17, 33, 70, 150])
+    holder = rng.choice(["let h = [a];", "let h = {\"k\": a};", "class H { init(v) { self.v = v; } }\nlet h = H(a);",
+                         "let h = || a;", "let h = (a, nil);", "let h = [[a]];"])
+    return ("let a = %s;\n%s\nlet b = a;\nfor i in %d.times() { a.push(i); }\n"
+            "let junk = [];\nfor i in %d.times() { junk = [i, \"j${i}\"]; }\nprint(a.len());\nprint(b.len());\n"
+            % (rng.choice(["[]", "[1]", "[1, 2, 3, 4]"]), holder, n, rng.randint(10, 60)))
+
+
 def run(ctx):
     proved = ctx.prove("LaytheVerif.Props.C20")
     oks = [common.cargo_build(), common.cargo_build(bin="vh_alloc"), common.cargo_build(bin="vh_runchk")]
@@ -35,48 +70,42 @@ def run(ctx):
         return
     # (b) programs under the layout-checking allocator, stats after a forced full collection
     files = sched_stream.write_generated(ctx, ctx.n(80, 1500), "gen") + sched_stream.fixture_programs(ctx.n(200, None))
+    import random
+    rng = random.Random(ctx.seed * 77 + 20)
+    gd = os.path.join(common.VERIF, "work", "c20_grown_%s" % ctx.tier)
+    os.makedirs(gd, exist_ok=True)
+    for k in range(ctx.n(40, 600)):
+        f = os.path.join(gd, "g%d.lay" % k)
+        open(f, "w").write(grown_program(rng))
+        files.append(f)
     reqs = ["--stats --gc every:%d --steps 300000 %s" % (3 + (i % 5), f) for i, f in enumerate(files)]
-    import subprocess
-    harness = common.harness_path(bin="vh_runchk")
-    p = subprocess.run([harness], input="".join(r + "\n" for r in reqs), stdout=subprocess.PIPE, stderr=subprocess.PIPE, text=True, timeout=3000)
-    recs = []
-    for line in p.stdout.split("\n"):
-        if line.strip():
-            try:
-                recs.append(json.loads(line))
-            except ValueError:
-                pass
-    prev_mis = 0
+    # crash-isolated shards; the mismatch counter of the checking allocator is per process, so it is compared per shard
+    recs = common.run_batch(reqs, bin="vh_runchk", timeout=3000)
     checked = 0
+    crashed = 0
     for r in recs:
-        mis = int(r.get("layout_mismatches", prev_mis))
-        if mis != prev_mis:
+        if r["status"].startswith("CRASH"):
+            crashed += 1        # host crashes are C16's subject; here they only cost coverage (counted in the evidence)
+            continue
+        mis = int(r.get("layout_mismatches", 0))
+        if mis != 0:
             ctx.cov["impl_vs_spec_failures"] += 1
             ctx.violation("layout", {"kind": "implementation-vs-spec", "what": "a block was released with a size/alignment other than the one it was obtained with",
                                      "file": r["file"], "program": open(r["file"]).read()[:20000], "run": "vh_runchk: --stats --gc every:3 <program>"})
             return
-        prev_mis = mis
         st = r.get("stats_after_full")
         if not st:
             continue
         checked += 1
         ctx.count_case(r["file"], nontrivial=st["gc_count"] > 1)
-        problems = []
-        if st["bytes_allocated"] != st["heap_bytes"] + st["obj_heap_bytes"] + st["nursery_bytes"]:
-            problems.append("bytes_allocated=%d but owned objects total %d" % (st["bytes_allocated"], st["heap_bytes"] + st["obj_heap_bytes"] + st["nursery_bytes"]))
-        if st["nursery_len"] != 0:
-            problems.append("nursery not empty after a full collection")
-        if st["next_gc"] != 2 * st["bytes_allocated"]:
-            problems.append("next_gc=%d is not twice bytes_allocated=%d" % (st["next_gc"], st["bytes_allocated"]))
+        problems = judge_stats(r)
         en = r.get("stats_end")
-        if en and en["gc_count"] > 0 and en["bytes_allocated"] < en["heap_bytes"] + en["obj_heap_bytes"]:
-            problems.append("bytes_allocated below the owned total at the end of the run")
         if problems:
             ctx.cov["impl_vs_spec_failures"] += 1
             ctx.violation("stats", {"kind": "implementation-vs-spec", "what": "; ".join(problems), "file": r["file"],
                                     "program": open(r["file"]).read()[:20000], "stats_after_full": st, "stats_end": en})
             return
-    ctx.stream_stat("programs", programs=len(files), with_stats=checked, records=len(recs))
+    ctx.stream_stat("programs", programs=len(files), with_stats=checked, records=len(recs), host_crashes=crashed)
     # (c) steady state
     d = os.path.join(common.VERIF, "work", "c20_loops")
     os.makedirs(d, exist_ok=True)
@@ -127,7 +156,14 @@ def replay(path):
         tmp = os.path.join(common.VERIF, "work", "c20_replay.lay")
         os.makedirs(os.path.dirname(tmp), exist_ok=True)
         open(tmp, "w").write(r["program"])
-        a = common.run_batch(["--stats --steps 300000 " + tmp])[0]
-        print(a["status"], a.get("stats_after_full"))
-        return 1
+        common.cargo_build(bin="vh_runchk")
+        bad = 0
+        for k in (3, 4, 5, 6, 7):
+            a = common.run_batch(["--stats --gc every:%d --steps 300000 %s" % (k, tmp)], bin="vh_runchk")[0]
+            probs = judge_stats(a) if a.get("stats_after_full") else ["no stats: " + a["status"]]
+            if int(a.get("layout_mismatches", 0)):
+                probs.append("%s blocks released with a layout other than the one they were obtained with" % a["layout_mismatches"])
+            print("every:%d" % k, a["status"], a.get("stats_after_full"), a.get("block_sizes"), probs)
+            bad += bool(probs)
+        return 1 if bad else 0
     return 0
